@@ -245,6 +245,12 @@ def _gen_query(rng, cfg, idxs, nreaders, fields, with_rf):
         elif cols == "list":
             cols = rng.sample(fields, rng.randrange(1, len(fields) + 1))
         return {"op": "mread", "r": rd, "a": a, "b": b, "cols": cols, "method": rng.choice([None, None, "ffill", "pad"])}
+    if r < 0.58:
+        # a column that (some) samples do not have: whether that raises or returns a partial answer is not judged,
+        # but it is a read - the tree must be left alone
+        k = rng.choice(idxs)
+        return {"op": "mread_badcol", "r": rd, "a": max(0, k - rng.choice([0, 3, 1000])), "b": k + rng.choice([0, 5, 100000]),
+                "cols": rng.choice(["nosuch_field", fields[0] + "/nosuch", ["nosuch_field"]])}
     if r < 0.65:
         return {"op": "mbounds", "r": rd}
     if r < 0.75:
@@ -544,6 +550,9 @@ def _md_query(op, rd, model, burnt, readonly, v, res):
             if not MD.deep_equal(_plain(val), e):
                 v("C12", "value_mismatch", "read(%d,%d,%r) sample %d: %r != written %r" % (a, b, cols, int(kk), val, e))
                 break
+    elif o == "mread_badcol":
+        readonly("read(columns=%r)" % (op["cols"],), lambda: rd.read(op["a"], op["b"], op["cols"]))
+        res.probe("read_naming_a_missing_column")
     elif o == "mbounds":
         out, exc = readonly("get_bounds", rd.get_bounds)
         mb = model.bounds()
